@@ -11,10 +11,31 @@
 //!            size s1 if sel == 0 else s2, in ONE map followed by ONE group_by_key
 //!   "weq"    in=[s1,e1,s2,e2]   out=[a==b, hash(a)==hash(b), a.cmp(&b), a.partial_cmp(&b)] (-1/0/1, null=None)
 //!   "weqrow" in=[s1,e1,n]       out=one such entry per (s2,e2) in 0..n x 0..n, s2-major
+//!   "wnew"   in=[s,e]            out=["ok",[s,e],[s',e']] (Window::new, then a serde_json round trip) | ["panic"]
+//!   "tsp"    in=[entry,[sel,c],keyed,size,off,events,stage,runs]   out=[outcome per run]
+//!            entry 0 = Timestamped::new in the source, 1 = attach_timestamps(ts_fn), 2 = to_timestamped();
+//!            ts_fn(x) = sel 0: x | 1: c | 2: x.wrapping_add(c) | 3: u64::MAX - x   (entry 1 only);
+//!            keyed via key_by for entry >= 1; stage 0 = the stamped stream, 1 = key_by_window,
+//!            2 = group_by_window / group_by_key_and_window; runs=[[parts,threads,coll]..] all on clones
+//!            of the SAME collection, coll 0 = collect_seq/collect_par, 1 = collect_*_sorted,
+//!            2 = collect_par_sorted_by_key, 3 = Runner with checkpointing in a fresh directory;
+//!            rows: stage 0 [k,ts,[v]], stage 1 [k,start,end,[v]], stage 2 [k,start,end,[v..]] in the
+//!            order the collector returned them (nothing sorted here)
+//!   "wjoin"  in=[jkind,keyed,lside,rside,xp,runs]   out=[outcome per run], rows [k,start,end,L,R],
+//!            L,R = null | [v..]; jkind 0..3 = inner,left,right,full; side = [0,[[k,s,e,val]..]] (a table
+//!            of struct-literal windows) | [stage,entry,[sel,c],size,off,events] (stage 1|2 as above);
+//!            xp=1: the right side lives in a second Pipeline
+//!   "gbig"   in=[via,keyed,size,off,n,t0,a,m,nk,parts,threads,wb,nt]  out=["ok",[digest rows sorted]] | ["panic"]
+//!            events i<n: ts = t0 + (i*a) mod m, k = i mod nk, v = i;  via 0 direct, 1 attach_timestamps,
+//!            2 to_timestamped, 3 grouping JOIN_INNER table, 4 table JOIN_LEFT grouping; table = windows
+//!            [wb+j*size, +size), j<nt, label j (per key when keyed); digest of a value list =
+//!            [len,sum,first,last], of nothing = [-1,0,0,0]
 //! u64 values: JSON int below 2^62, decimal string otherwise. events=[[k,ts,v]..]; parts=0 means
 //! collect_seq, parts=n>0 means collect_par(Some(threads), Some(n)).
 use ibv::{Emitter, SplitMix64, Tier, drive};
-use ironbeam::{Pipeline, Timestamped, Window, from_vec};
+use ironbeam::checkpoint::{CheckpointConfig, CheckpointPolicy};
+use ironbeam::{ExecMode, NodeId, PCollection, Pipeline, RFBound, Runner, Timestamped, Window, from_vec};
+use std::hash::Hash;
 use serde_json::{Value, json};
 use std::panic::{AssertUnwindSafe, catch_unwind};
 
@@ -72,8 +93,404 @@ fn weq(a: Window, b: Window) -> Value {
     json!([a == b, hash_of(&a) == hash_of(&b), ord_code(a.cmp(&b)), pc])
 }
 
+// ===================================================================================
+// entry points of helpers/timestamped.rs, collectors, joins (kinds tsp / wjoin / gbig)
+// ===================================================================================
+#[derive(Clone, Copy)]
+struct RunSpec {
+    parts: usize,
+    threads: usize,
+    coll: u64,
+}
+fn runspecs(v: &Value) -> Vec<RunSpec> {
+    v.as_array()
+        .unwrap()
+        .iter()
+        .map(|r| RunSpec {
+            parts: r[0].as_u64().unwrap() as usize,
+            threads: r[1].as_u64().unwrap() as usize,
+            coll: r[2].as_u64().unwrap(),
+        })
+        .collect()
+}
+
+static SCRATCH: std::sync::atomic::AtomicU64 = std::sync::atomic::AtomicU64::new(0);
+fn scratch_dir() -> std::path::PathBuf {
+    let n = SCRATCH.fetch_add(1, std::sync::atomic::Ordering::SeqCst);
+    let d = std::path::PathBuf::from(format!("/verif/run/C13/scratch-{}/c{}", std::process::id(), n));
+    std::fs::create_dir_all(&d).expect("scratch dir");
+    d
+}
+
+/// the runner with checkpointing switched on, writing into a fresh directory
+fn ckpt_collect<T: RFBound>(p: &Pipeline, id: NodeId, r: RunSpec) -> anyhow::Result<Vec<T>> {
+    let dir = scratch_dir();
+    let runner = Runner {
+        mode: if r.parts == 0 {
+            ExecMode::Sequential
+        } else {
+            ExecMode::Parallel { threads: Some(r.threads), partitions: Some(r.parts) }
+        },
+        checkpoint_config: Some(CheckpointConfig {
+            enabled: true,
+            directory: dir.clone(),
+            policy: CheckpointPolicy::AfterEveryBarrier,
+            auto_recover: true,
+            max_checkpoints: Some(10),
+        }),
+        ..Default::default()
+    };
+    let out = catch_unwind(AssertUnwindSafe(|| runner.run_collect::<T>(p, id)));
+    let _ = std::fs::remove_dir_all(&dir);
+    match out {
+        Ok(r) => r,
+        Err(e) => std::panic::resume_unwind(e),
+    }
+}
+
+fn outcome_json<T>(res: std::thread::Result<anyhow::Result<Vec<T>>>, enc: &dyn Fn(&T) -> Value) -> Value {
+    match res {
+        Ok(Ok(rows)) => json!(["ok", rows.iter().map(enc).collect::<Vec<Value>>()]),
+        Ok(Err(_)) => json!(["err", "other"]),
+        Err(_) => json!(["panic"]),
+    }
+}
+
+/// every run on a clone of the same collection; element type without Ord: coll 0 and 3 only
+fn run_plain<T: RFBound>(p: &Pipeline, c: &PCollection<T>, runs: &[RunSpec], enc: &dyn Fn(&T) -> Value) -> Value {
+    Value::Array(
+        runs.iter()
+            .map(|&r| {
+                let res = catch_unwind(AssertUnwindSafe(|| -> anyhow::Result<Vec<T>> {
+                    match r.coll {
+                        0 => collect(c.clone(), r.parts, r.threads),
+                        3 => ckpt_collect::<T>(p, c.node_id(), r),
+                        _ => Err(anyhow::anyhow!("collector not available for this element type")),
+                    }
+                }));
+                outcome_json(res, enc)
+            })
+            .collect(),
+    )
+}
+
+/// every run on a clone of the same keyed collection, all four collectors
+fn run_kv<K, X>(p: &Pipeline, c: &PCollection<(K, X)>, runs: &[RunSpec], enc: &dyn Fn(&(K, X)) -> Value) -> Value
+where
+    K: RFBound + Ord,
+    X: RFBound + Ord,
+{
+    Value::Array(
+        runs.iter()
+            .map(|&r| {
+                let res = catch_unwind(AssertUnwindSafe(|| -> anyhow::Result<Vec<(K, X)>> {
+                    match (r.coll, r.parts) {
+                        (0, _) => collect(c.clone(), r.parts, r.threads),
+                        (1, 0) => c.clone().collect_seq_sorted(),
+                        (1, _) => c.clone().collect_par_sorted(Some(r.threads), Some(r.parts)),
+                        (2, n) if n > 0 => c.clone().collect_par_sorted_by_key(Some(r.threads), Some(n)),
+                        (3, _) => ckpt_collect::<(K, X)>(p, c.node_id(), r),
+                        _ => Err(anyhow::anyhow!("no such collector")),
+                    }
+                }));
+                outcome_json(res, enc)
+            })
+            .collect(),
+    )
+}
+
+/// ts_fn of attach_timestamps: [sel, c]
+fn ts_fn(tsf: &Value) -> impl Fn(u64) -> u64 + Send + Sync + 'static {
+    let sel = tsf[0].as_u64().unwrap();
+    let c = du(&tsf[1]);
+    move |x| match sel {
+        0 => x,
+        1 => c,
+        2 => x.wrapping_add(c),
+        _ => u64::MAX - x,
+    }
+}
+
+/// the stamped stream through one of the three entry points (entry >= 1: v must be the event index)
+fn stamped_u(p: &Pipeline, entry: u64, tsf: &Value, evs: &[Ev]) -> PCollection<Timestamped<i64>> {
+    match entry {
+        0 => from_vec(p, evs.iter().map(|&(_, t, v)| Timestamped::new(t, v)).collect::<Vec<_>>()),
+        1 => {
+            let ts: Vec<u64> = evs.iter().map(|e| e.1).collect();
+            let f = ts_fn(tsf);
+            from_vec(p, evs.iter().map(|e| e.2).collect::<Vec<i64>>())
+                .attach_timestamps(move |v: &i64| f(ts[*v as usize]))
+        }
+        _ => from_vec(p, evs.iter().map(|&(_, t, v)| (t, v)).collect::<Vec<(u64, i64)>>()).to_timestamped(),
+    }
+}
+fn stamped_k(p: &Pipeline, entry: u64, tsf: &Value, evs: &[Ev]) -> PCollection<(i64, Timestamped<i64>)> {
+    if entry == 0 {
+        from_vec(p, evs.iter().map(|&(k, t, v)| (k, Timestamped::new(t, v))).collect::<Vec<_>>())
+    } else {
+        let ks: Vec<i64> = evs.iter().map(|e| e.0).collect();
+        stamped_u(p, entry, tsf, evs).key_by(move |e: &Timestamped<i64>| ks[e.value as usize])
+    }
+}
+
+trait WKey: RFBound + Eq + Hash + Ord {
+    fn kcells(&self) -> (i64, u64, u64);
+}
+impl WKey for Window {
+    fn kcells(&self) -> (i64, u64, u64) {
+        (0, self.start, self.end)
+    }
+}
+impl WKey for (i64, Window) {
+    fn kcells(&self) -> (i64, u64, u64) {
+        (self.0, self.1.start, self.1.end)
+    }
+}
+trait Flat {
+    fn flat(&self) -> Vec<i64>;
+}
+impl Flat for i64 {
+    fn flat(&self) -> Vec<i64> {
+        vec![*self]
+    }
+}
+impl Flat for Vec<i64> {
+    fn flat(&self) -> Vec<i64> {
+        self.clone()
+    }
+}
+fn oflat<T: Flat>(o: Option<&T>) -> Value {
+    o.map_or(Value::Null, |x| json!(x.flat()))
+}
+fn krow<K: WKey>(k: &K, rest: Vec<Value>) -> Value {
+    let (a, s, e) = k.kcells();
+    let mut row = vec![json!(a), ju(s), ju(e)];
+    row.extend(rest);
+    Value::Array(row)
+}
+
+enum Side<K> {
+    One(PCollection<(K, i64)>),
+    Many(PCollection<(K, Vec<i64>)>),
+}
+fn side_u(p: &Pipeline, spec: &Value) -> Side<Window> {
+    let stage = spec[0].as_u64().unwrap();
+    if stage == 0 {
+        let rows: Vec<(Window, i64)> = spec[1]
+            .as_array()
+            .unwrap()
+            .iter()
+            .map(|r| (Window { start: du(&r[1]), end: du(&r[2]) }, r[3].as_i64().unwrap()))
+            .collect();
+        return Side::One(from_vec(p, rows));
+    }
+    let (entry, size, off) = (spec[1].as_u64().unwrap(), du(&spec[3]), du(&spec[4]));
+    let st = stamped_u(p, entry, &spec[2], &events(&spec[5]));
+    if stage == 1 { Side::One(st.key_by_window(size, off)) } else { Side::Many(st.group_by_window(size, off)) }
+}
+fn side_k(p: &Pipeline, spec: &Value) -> Side<(i64, Window)> {
+    let stage = spec[0].as_u64().unwrap();
+    if stage == 0 {
+        let rows: Vec<((i64, Window), i64)> = spec[1]
+            .as_array()
+            .unwrap()
+            .iter()
+            .map(|r| ((r[0].as_i64().unwrap(), Window { start: du(&r[1]), end: du(&r[2]) }), r[3].as_i64().unwrap()))
+            .collect();
+        return Side::One(from_vec(p, rows));
+    }
+    let (entry, size, off) = (spec[1].as_u64().unwrap(), du(&spec[3]), du(&spec[4]));
+    let st = stamped_k(p, entry, &spec[2], &events(&spec[5]));
+    if stage == 1 { Side::One(st.key_by_window(size, off)) } else { Side::Many(st.group_by_key_and_window(size, off)) }
+}
+
+fn join_run<K, V, W>(p: &Pipeline, l: &PCollection<(K, V)>, r: &PCollection<(K, W)>, jk: u64, runs: &[RunSpec]) -> Value
+where
+    K: WKey,
+    V: RFBound + Ord + Flat,
+    W: RFBound + Ord + Flat,
+{
+    match jk {
+        0 => run_kv(p, &l.join_inner(r), runs, &|(k, (v, w)): &(K, (V, W))| {
+            krow(k, vec![oflat(Some(v)), oflat(Some(w))])
+        }),
+        1 => run_kv(p, &l.join_left(r), runs, &|(k, (v, w)): &(K, (V, Option<W>))| {
+            krow(k, vec![oflat(Some(v)), oflat(w.as_ref())])
+        }),
+        2 => run_kv(p, &l.join_right(r), runs, &|(k, (v, w)): &(K, (Option<V>, W))| {
+            krow(k, vec![oflat(v.as_ref()), oflat(Some(w))])
+        }),
+        _ => run_kv(p, &l.join_full(r), runs, &|(k, (v, w)): &(K, (Option<V>, Option<W>))| {
+            krow(k, vec![oflat(v.as_ref()), oflat(w.as_ref())])
+        }),
+    }
+}
+fn join_sides<K: WKey>(p: &Pipeline, l: &Side<K>, r: &Side<K>, jk: u64, runs: &[RunSpec]) -> Value {
+    match (l, r) {
+        (Side::One(a), Side::One(b)) => join_run(p, a, b, jk, runs),
+        (Side::One(a), Side::Many(b)) => join_run(p, a, b, jk, runs),
+        (Side::Many(a), Side::One(b)) => join_run(p, a, b, jk, runs),
+        (Side::Many(a), Side::Many(b)) => join_run(p, a, b, jk, runs),
+    }
+}
+
+fn run_tsp(input: &Value) -> Value {
+    let entry = input[0].as_u64().unwrap();
+    let tsf = &input[1];
+    let keyed = flag(&input[2]);
+    let (size, off) = (du(&input[3]), du(&input[4]));
+    let evs = events(&input[5]);
+    let stage = input[6].as_u64().unwrap();
+    let runs = runspecs(&input[7]);
+    let p = Pipeline::default();
+    let one = |v: &i64| json!([v]);
+    if keyed {
+        let st = stamped_k(&p, entry, tsf, &evs);
+        match stage {
+            0 => run_plain(&p, &st, &runs, &|(k, e): &(i64, Timestamped<i64>)| json!([k, ju(e.ts), one(&e.value)])),
+            1 => run_kv(&p, &st.key_by_window(size, off), &runs, &|(k, v): &((i64, Window), i64)| krow(k, vec![one(v)])),
+            _ => run_kv(&p, &st.group_by_key_and_window(size, off), &runs, &|(k, vs): &((i64, Window), Vec<i64>)| {
+                krow(k, vec![json!(vs)])
+            }),
+        }
+    } else {
+        let st = stamped_u(&p, entry, tsf, &evs);
+        match stage {
+            0 => run_plain(&p, &st, &runs, &|e: &Timestamped<i64>| json!([0, ju(e.ts), one(&e.value)])),
+            1 => run_kv(&p, &st.key_by_window(size, off), &runs, &|(k, v): &(Window, i64)| krow(k, vec![one(v)])),
+            _ => run_kv(&p, &st.group_by_window(size, off), &runs, &|(k, vs): &(Window, Vec<i64>)| {
+                krow(k, vec![json!(vs)])
+            }),
+        }
+    }
+}
+
+fn run_wjoin(input: &Value) -> Value {
+    let jk = input[0].as_u64().unwrap();
+    let keyed = flag(&input[1]);
+    let xp = input[4].as_u64().unwrap() != 0;
+    let runs = runspecs(&input[5]);
+    let p = Pipeline::default();
+    let p2 = Pipeline::default();
+    let pr = if xp { &p2 } else { &p };
+    if keyed {
+        let l = side_k(&p, &input[2]);
+        let r = side_k(pr, &input[3]);
+        join_sides(&p, &l, &r, jk, &runs)
+    } else {
+        let l = side_u(&p, &input[2]);
+        let r = side_u(pr, &input[3]);
+        join_sides(&p, &l, &r, jk, &runs)
+    }
+}
+
+// ---- big event sets given by a formula, observed through per-group digests ----
+fn digest(vs: Option<&Vec<i64>>) -> [i64; 4] {
+    match vs {
+        None => [-1, 0, 0, 0],
+        Some(v) => [
+            v.len() as i64,
+            v.iter().sum(),
+            v.first().copied().unwrap_or(0),
+            v.last().copied().unwrap_or(0),
+        ],
+    }
+}
+fn digest_row<K: WKey>(k: &K, parts: &[[i64; 4]]) -> (i64, u64, u64, Vec<i64>) {
+    let (a, s, e) = k.kcells();
+    (a, s, e, parts.iter().flatten().copied().collect())
+}
+fn digest_out(res: anyhow::Result<Vec<(i64, u64, u64, Vec<i64>)>>) -> Value {
+    match res {
+        Ok(mut rows) => {
+            rows.sort();
+            let l: Vec<Value> = rows
+                .iter()
+                .map(|(k, s, e, d)| {
+                    let mut row = vec![json!(k), ju(*s), ju(*e)];
+                    row.extend(d.iter().map(|x| json!(x)));
+                    Value::Array(row)
+                })
+                .collect();
+            json!(["ok", l])
+        }
+        Err(_) => json!(["err", "other"]),
+    }
+}
+fn big_ts(i: u64, t0: u64, a: u64, m: u64) -> u64 {
+    t0 + (i * a) % m
+}
+fn run_gbig(input: &Value) -> Value {
+    let via = input[0].as_u64().unwrap();
+    let keyed = flag(&input[1]);
+    let (size, off) = (du(&input[2]), du(&input[3]));
+    let n = input[4].as_u64().unwrap();
+    let (t0, a, m) = (du(&input[5]), du(&input[6]), du(&input[7]).max(1));
+    let nk = input[8].as_u64().unwrap().max(1);
+    let parts = input[9].as_u64().unwrap() as usize;
+    let threads = input[10].as_u64().unwrap() as usize;
+    let wb = du(&input[11]);
+    let nt = input[12].as_u64().unwrap();
+    let p = Pipeline::default();
+    // the stamped stream
+    let st: PCollection<Timestamped<i64>> = match via {
+        1 => from_vec(&p, (0..n as i64).collect::<Vec<i64>>())
+            .attach_timestamps(move |v: &i64| big_ts(*v as u64, t0, a, m)),
+        2 => from_vec(&p, (0..n).map(|i| (big_ts(i, t0, a, m), i as i64)).collect::<Vec<(u64, i64)>>())
+            .to_timestamped(),
+        _ => from_vec(&p, (0..n).map(|i| Timestamped::new(big_ts(i, t0, a, m), i as i64)).collect::<Vec<_>>()),
+    };
+    if keyed {
+        let g = st.key_by(move |e: &Timestamped<i64>| e.value % nk as i64).group_by_key_and_window(size, off);
+        let table: Vec<((i64, Window), i64)> = (0..nt)
+            .flat_map(|j| {
+                (0..nk as i64).map(move |k| ((k, Window { start: wb + j * size, end: wb + j * size + size }), j as i64))
+            })
+            .collect();
+        match via {
+            3 => digest_out(collect(g.join_inner(&from_vec(&p, table)), parts, threads).map(|rows| {
+                rows.iter().map(|(k, (vs, l))| digest_row(k, &[digest(Some(vs)), digest(Some(&vec![*l]))])).collect()
+            })),
+            4 => digest_out(collect(from_vec(&p, table).join_left(&g), parts, threads).map(|rows| {
+                rows.iter().map(|(k, (l, vs))| digest_row(k, &[digest(Some(&vec![*l])), digest(vs.as_ref())])).collect()
+            })),
+            _ => digest_out(
+                collect(g, parts, threads)
+                    .map(|rows| rows.iter().map(|(k, vs)| digest_row(k, &[digest(Some(vs))])).collect()),
+            ),
+        }
+    } else {
+        let g = st.group_by_window(size, off);
+        let table: Vec<(Window, i64)> =
+            (0..nt).map(|j| (Window { start: wb + j * size, end: wb + j * size + size }, j as i64)).collect();
+        match via {
+            3 => digest_out(collect(g.join_inner(&from_vec(&p, table)), parts, threads).map(|rows| {
+                rows.iter().map(|(k, (vs, l))| digest_row(k, &[digest(Some(vs)), digest(Some(&vec![*l]))])).collect()
+            })),
+            4 => digest_out(collect(from_vec(&p, table).join_left(&g), parts, threads).map(|rows| {
+                rows.iter().map(|(k, (l, vs))| digest_row(k, &[digest(Some(&vec![*l])), digest(vs.as_ref())])).collect()
+            })),
+            _ => digest_out(
+                collect(g, parts, threads)
+                    .map(|rows| rows.iter().map(|(k, vs)| digest_row(k, &[digest(Some(vs))])).collect()),
+            ),
+        }
+    }
+}
+
+fn run_wnew(input: &Value) -> Value {
+    let w = Window::new(du(&input[0]), du(&input[1]));
+    let text = serde_json::to_string(&w).expect("serialize");
+    let back: Window = serde_json::from_str(&text).expect("deserialize");
+    json!(["ok", [ju(w.start), ju(w.end)], [ju(back.start), ju(back.end)]])
+}
+
 fn run(kind: &str, input: &Value) -> Value {
     match kind {
+        "tsp" => run_tsp(input),
+        "wjoin" => run_wjoin(input),
+        "gbig" => run_gbig(input),
+        "wnew" => run_wnew(input),
         "weq" => weq(
             Window { start: du(&input[0]), end: du(&input[1]) },
             Window { start: du(&input[2]), end: du(&input[3]) },
